@@ -11,6 +11,7 @@ import CifModel.Basic
     * cif_value_clone                  (value.c)    — for character, number, unknown/na and (nested) list values,
                                                       with a fresh target (`*clone == NULL`)
     * cif_value_insert_element_at      (value.c)    — clone the element, grow the element array when full
+    * cif_value_set_element_at         (value.c)    — clone the element into the EXISTING target (`*clone != NULL`)
 
   into this event language.  Table values are not covered here (uthash's own out-of-memory behaviour is a recorded
   open finding, see known_findings.json, F31).  `failAt = 0` means no failure.
@@ -175,5 +176,44 @@ def insertElement (failAt : Nat) (full : Bool) (elem : Shape) (s : St := {}) : N
       | (none, s'') => (MEMORY_ERROR, none, freeOwned o s'')      -- FAILURE_HANDLER(soft): cif_value_free(clone)
       | (some arr, s'') => (OK, some (o, some arr), s'')
     else (OK, some (o, none), s')
+
+-- ---------------------------------------------------------------------------------------------------------------
+-- cif_value_set_element_at(list, index, element) with element != NULL and element != the current target:
+-- `cif_value_clone(element, &target)` with a pre-existing target object (`*clone != NULL`)
+
+/-- `cif_value_clone` into an existing target: `cif_value_clean(*clone)` first (releases of the target's old, pre-existing
+    blocks: not events of the window), `to_free` stays NULL, so on failure the handler's `free(to_free)` releases nothing
+    and the target object itself survives.  Returns the ids of the blocks the target gained. -/
+def cloneExisting (failAt : Nat) : Shape → St → Option (List Nat) × St
+  | .scalar, s => (some [], s)
+  | .chr, s =>
+    match alloc failAt s with                                     -- cif_u_strdup(text)
+    | (none, s') => (none, s')
+    | (some t, s') => (some [t], s')
+  | .numb hasSu, s =>
+    match alloc failAt s with                                     -- text
+    | (none, s') => (none, s')
+    | (some t, s') =>
+      match alloc failAt s' with                                  -- digits
+      | (none, s'') => (none, free t s'')
+      | (some d, s'') =>
+        if hasSu then
+          match alloc failAt s'' with                             -- su_digits
+          | (none, s3) => (none, free t (free d s3))               -- FAILURE_HANDLER(su): digits, then text
+          | (some u, s3) => (some [t, d, u], s3)
+        else (some [t, d], s'')
+  | .lst elems, s =>
+    match alloc failAt s with                                     -- the element array
+    | (none, s') => (none, s')
+    | (some arr, s') =>
+      match cloneElems failAt elems [] s' with
+      | (some es, s'') => (some (arr :: Owned.idsList es), s'')
+      | (none, s'') => (none, free arr s'')                        -- cif_list_value_clean: elements (done by cloneElems), array
+
+/-- returns (result code, ids gained by the target element, final state) -/
+def setElement (failAt : Nat) (elem : Shape) (s : St := {}) : Nat × Option (List Nat) × St :=
+  match cloneExisting failAt elem s with
+  | (none, s') => (MEMORY_ERROR, none, s')
+  | (some g, s') => (OK, some g, s')
 
 end CifModel.Model.Ladder
